@@ -59,12 +59,13 @@ theorem origin_ref_rejected (env : Env) (t : Tbl) (aiw : Bool) (tv name : String
     resolveExpr env t aiw (.tcol tv name) = .error .columnNotFound := by
   simp [resolveExpr, hsrc, hcol, hout]
 
-/-- … while a reference that is in scope resolves to exactly that identity -/
+/-- … while a reference that is in scope resolves to exactly that identity (with the dtype the table currently has for the column:
+    a reference may be older than a `union` that made a constant column an ordinary one - repair of D85) -/
 theorem own_ref_resolves (env : Env) (t : Tbl) (aiw : Bool) (tv name : String) (src : Tbl) (u : Uid)
     (dt : Dtype) (ft : Ftype) (m : ColMeta)
     (hsrc : env.table? tv = some src) (hcol : src.colByName name = .ok (.col u dt ft))
     (hin : t.cache.col? u = some m) :
-    resolveExpr env t aiw (.tcol tv name) = .ok (.col u dt ft) := by
+    resolveExpr env t aiw (.tcol tv name) = .ok (.col u m.dtype ft) := by
   simp [resolveExpr, hsrc, hcol, hin]
 
 end Pdt.C16
